@@ -223,7 +223,7 @@ const (
 	fGarbage
 	fReadErr
 	fWMode
-	fFloat // FP term when the file holds a float text (then fGarbage is true for integer reads)
+	fFloat  // FP term when the file holds a float text (then fGarbage is true for integer reads)
 	fWrites // number of write calls on this path so far
 )
 
@@ -489,4 +489,3 @@ func registerFiles(e *Engine) {
 		return outs
 	})
 }
-
